@@ -256,6 +256,10 @@ fn c01_decide(case: &AuthCase, o: &Obs) -> Verdict {
         if out.cb.len() > eidx + 1 {
             return Verdict::Fail { sig: "packets-after-failure".into(), msg: format!("{} packets sent after the Encryption Request although {why}: {:?}", out.cb.len() - eidx - 1, out.cb_kinds()) };
         }
+        // ... not even bytes the client cannot read (e.g. encrypted under a key derived from a secret of the wrong size)
+        if out.stream_broken.is_some() || out.cb_leftover > 0 {
+            return Verdict::Fail { sig: "bytes-after-failure".into(), msg: format!("{} undecodable bytes ({:?}) sent after the Encryption Request although {why}", out.cb_leftover, out.stream_broken) };
+        }
         if out.returned_ok() || matches!(out.end, sim::ServerEnd::Hung) {
             return Verdict::Fail { sig: "connection-not-ended-after-failure".into(), msg: format!("listen ended with {} although {why}", out.end_label()) };
         }
